@@ -1,6 +1,6 @@
 use crate::VueJsxTransformVisitor;
 use indexmap::{IndexMap, IndexSet};
-use std::borrow::Cow;
+use std::{borrow::Cow, cell::Cell};
 use swc_core::{
     common::{comments::Comments, EqIgnoreSpan, Span, Spanned, DUMMY_SP},
     ecma::{
@@ -18,6 +18,18 @@ enum RefinedTsTypeElement {
     CallSignature(TsCallSignatureDecl),
 }
 
+/// Circular type references (which TypeScript rejects, but the parser accepts)
+/// would otherwise recurse until the stack overflows.
+const MAX_TYPE_RESOLUTION_DEPTH: u16 = 128;
+
+struct TypeResolutionDepthGuard<'a>(&'a Cell<u16>);
+
+impl Drop for TypeResolutionDepthGuard<'_> {
+    fn drop(&mut self) {
+        self.0.set(self.0.get() - 1);
+    }
+}
+
 struct PropIr {
     types: IndexSet<Option<Atom>>,
     required: bool,
@@ -27,8 +39,25 @@ impl<C> VueJsxTransformVisitor<C>
 where
     C: Comments,
 {
+    fn enter_type_resolution(&self, span: Span) -> Option<TypeResolutionDepthGuard<'_>> {
+        if self.type_resolution_overflowed.get() {
+            return None;
+        }
+        let depth = self.type_resolution_depth.get();
+        if depth >= MAX_TYPE_RESOLUTION_DEPTH {
+            self.type_resolution_overflowed.set(true);
+            HANDLER.with(|handler| {
+                handler.span_err(span, "Type is circular or nested too deeply to be resolved.");
+            });
+            return None;
+        }
+        self.type_resolution_depth.set(depth + 1);
+        Some(TypeResolutionDepthGuard(&self.type_resolution_depth))
+    }
+
     pub(crate) fn extract_props_type(&mut self, setup_fn: &ExprOrSpread) -> Option<Expr> {
         verif_point!("extract_props");
+        self.type_resolution_overflowed.set(false);
         let mut defaults = None;
         let first_param_type = if let ExprOrSpread { expr, spread: None } = setup_fn {
             match &**expr {
@@ -364,6 +393,9 @@ where
 
     fn resolve_type_elements(&self, ty: &TsType, props: &mut Vec<RefinedTsTypeElement>) {
         verif_point!("resolve_type_elements");
+        let Some(_guard) = self.enter_type_resolution(ty.span()) else {
+            return;
+        };
         match ty {
             TsType::TsTypeLit(TsTypeLit { members, .. }) => {
                 props.extend(members.iter().filter_map(|member| match member {
@@ -593,6 +625,9 @@ where
 
     fn resolve_string_or_union_strings(&self, ty: &TsType) -> Vec<Atom> {
         verif_point!("resolve_strings");
+        let Some(_guard) = self.enter_type_resolution(ty.span()) else {
+            return vec![];
+        };
         match ty {
             TsType::TsLitType(TsLitType {
                 lit: TsLit::Str(key),
@@ -645,6 +680,7 @@ where
 
     fn resolve_indexed_access(&self, obj: &TsType, index: &TsType) -> Option<TsType> {
         verif_point!("resolve_indexed_access");
+        let _guard = self.enter_type_resolution(obj.span())?;
         match obj {
             TsType::TsTypeRef(TsTypeRef {
                 type_name: TsEntityName::Ident(ident),
@@ -950,6 +986,10 @@ where
     fn infer_runtime_type(&self, ty: &TsType) -> IndexSet<Option<Atom>> {
         verif_point!("infer_runtime_type");
         let mut runtime_types = IndexSet::with_capacity(1);
+        let Some(_guard) = self.enter_type_resolution(ty.span()) else {
+            runtime_types.insert(None);
+            return runtime_types;
+        };
         match ty {
             TsType::TsKeywordType(keyword) => match keyword.kind {
                 TsKeywordTypeKind::TsStringKeyword => {
@@ -1108,6 +1148,7 @@ where
 
     pub(crate) fn extract_emits_type(&self, setup_fn: &ExprOrSpread) -> Option<ArrayLit> {
         verif_point!("extract_emits");
+        self.type_resolution_overflowed.set(false);
         let TsTypeAnn {
             type_ann: second_param_type,
             ..
